@@ -347,6 +347,11 @@ func runC11Phase(rec *vkit.Recorder, c *c11Case, spec *Spec, st *c11State) (vs [
 		if gj.HTTPClientConfig.BasicAuth != nil {
 			add("C11/basic-auth-kept", "job %q keeps basic_auth", jn)
 		}
+		if gj.HTTPClientConfig.OAuth2 != nil {
+			// the shard's Prometheus would fetch a token (with the placeholder the marshaller writes for the secret)
+			// before every scrape through the proxy, which authenticates by itself
+			add("C11/oauth2-kept", "job %q keeps its oauth2 block (client_secret %q): the shard's Prometheus cannot scrape through the proxy without a token it cannot get", jn, string(gj.HTTPClientConfig.OAuth2.ClientSecret))
+		}
 		if !reflect.DeepEqual(gj.HTTPClientConfig.TLSConfig, config_util.TLSConfig{}) {
 			add("C11/tls-kept", "job %q keeps tls_config %+v", jn, gj.HTTPClientConfig.TLSConfig)
 		}
